@@ -319,7 +319,6 @@ func normLenRel(r rel) rel {
 	return r
 }
 
-
 // Rels lists all atomic relations known in a fact set.
 func (s factSet) Rels() []rel {
 	var out []rel
